@@ -59,6 +59,18 @@ CHECKS = {
             'Trusted: Lean kernel; re.match enters as a Boolean matrix computed by the real re; Extractor sampling is '
             'outside the model (oracle only; two known findings).',
             'DESIGN.md 4 C18'),
+    'C19': ('Lean 4 theorems over a model of the argv scanner and the tagged loader + model/implementation correspondence',
+            'Kernel-checked theorems: on every well-formed command line (any number of single-dash clusters mixing '
+            'unittest letters with W/1/0, long tdda options in either spelling, class names and foreign options in any '
+            'order, an optional write option followed by kinds) the scanner returns exactly the command line\'s meaning '
+            '(flags recognised, tdda arguments removed, everything else in place, kinds registered); under the tagged '
+            'option the tests selected from a class are exactly the visible tests that carry the tag themselves or '
+            'through (an ancestor of) their class, each once; without it all; with the list option nothing runs and '
+            'exactly the classes containing a tagged test are listed. Tied to the code by running scanner and loader '
+            'on generated inputs; whole runs (python module.py argv, side-effect log) are the oracle.',
+            'Trusted: Lean kernel; unittest itself (loader, option parsing, name narrowing) not modelled; single '
+            'inheritance only in the loader model.',
+            'DESIGN.md 4 C19'),
 }
 
 NOT_BUILT = 'check not built yet in this round (see DESIGN.md section 4 for the planned model and theorems)'
